@@ -92,11 +92,19 @@ pub fn record(seed: u64, tier: &str, out_path: &str) {
     let mut next_len = 0usize;
     let n_hist = if thorough { 80 } else { 14 };
     for s in 0..n_signers + n_hist {
-        let sd = if s < 3 { seed_of(s) } else { let b = rng.bytes(32); b.try_into().unwrap() };
+        // (degenerate seeds are seeds too: all zero, all ones, a single bit)
+        let sd: [u8; 32] = if s < 3 { seed_of(s) } else if s == 3 { [0u8; 32] } else if s == 4 { [0xff; 32] } else if s == 5 { let mut z = [0u8; 32]; z[31] = 0x80; z } else { let b = rng.bytes(32); b.try_into().unwrap() };
         let pk = interp::pk_of_seed(&sd);
         writeln!(out, "{}", json!({"ev": "new"})).unwrap();
         events += 1;
-        let mut signer = MsgSigner::from_seed(&sd);
+        let mut signer = match guarded(|| MsgSigner::from_seed(&sd)) {
+            Ok(s) => s,
+            Err(_) => {   // a constructor that panics on a valid seed: the first signature of this signer "panicked"
+                writeln!(out, "{}", json!({"ev": "sign", "covers": [999_999], "equal_oneshot": false, "panic": true, "len": 0})).unwrap();
+                events += 1;
+                continue;
+            }
+        };
         let mut chunks: Vec<Vec<u8>> = Vec::new();    // all chunks ever fed to this signer
         let mut msg_start = 0usize;                    // index of first chunk of the current message
         let mut starts: Vec<usize> = vec![0];
@@ -141,7 +149,7 @@ pub fn record(seed: u64, tier: &str, out_path: &str) {
             // which chunks does this signature cover? candidates: current message; carry-over from the
             // previous 1..3 messages; everything since creation
             let end = chunks.len();
-            let mut covers: Value = json!("J");
+            let mut covers: Value = json!([999_999]);   // "covers nothing the harness can name" (a sequence, so that TLC can compare it)
             let mut cands: Vec<usize> = vec![msg_start];
             for back in 1..=3usize { if starts.len() > back { cands.push(starts[starts.len() - 1 - back]); } }
             cands.push(0);
@@ -250,6 +258,25 @@ pub fn record(seed: u64, tier: &str, out_path: &str) {
                 let mut sig = crate::util::unhex(r);
                 sig.extend_from_slice(&[0u8; 32]);
                 edge("small-order", &crate::util::unhex(a), &[m, 0x55, m], &sig);
+            }
+        }
+    }
+    // 32-byte keys that are not curve points, with the signature (neutral point, S = 0) that a verifier falling back to a
+    // default key accepts for every message
+    {
+        let base = interp::pk_of_seed(&[3u8; 32]);
+        let mut cand = base;
+        let mut found = 0;
+        let mut k = 0usize;
+        while found < 8 && k < 2000 {
+            cand[k % 31] = cand[k % 31].wrapping_add(1 + (k / 31) as u8);
+            k += 1;
+            if !interp::is_curve_point(&cand) {
+                found += 1;
+                let mut neutral = vec![0u8; 64]; neutral[0] = 1;
+                for m in 0..4u8 { edge("non-point-key", &cand, &[m; 9], &neutral); }
+                let sig = interp::sign_oneshot(&[3u8; 32], b"abc").to_vec();
+                edge("non-point-key", &cand, b"abc", &sig);
             }
         }
     }
